@@ -121,6 +121,23 @@ Theorem C01_sma_binary64_error : forall p s xs M, sma_new FOps p = Ok s -> (p < 
           (sma_outs' FOps s xs) (prefixes_from [] xs).
 Proof. exact sma_float_error. Qed.
 
+(* ... and PROVED for MeanAbsoluteDeviation on binary64: the running sum, the mean, the inner loop over the stored window (a permutation
+   of the window) and the final division: every output finite, >= 0 and within (12t+10) * 2^-53 * M + (5t+1) * 2^-1075 <= tau(t) * M of
+   the exact mean absolute deviation of the last min(t,n) inputs; periods <= 2^47, up to 2^47 inputs, 1 <= M <= 2^400 *)
+From TA Require Import Proofs.XMad Proofs.FloatMadErr.
+Theorem C01_mad_binary64_within_tau : forall p s xs M, mad_new FOps p = Ok s -> (p <= 140737488355328)%N ->
+  (1 <= M)%R -> (M <= bpow radix2 400)%R -> Forall (okin M) xs -> (INR (length xs) * u <= / 64)%R ->
+  Forall2 (fun o hh => let t := INR (length hh) in finF o /\ (0 <= FR o)%R /\
+            (Rabs (FR o - madev (map FR (lastn (N.to_nat p) hh))) <= (1 / 10 ^ 12 + 1 / 10 ^ 15 * (t * R_sqrt.sqrt t)) * M)%R)
+          (Wiring.mad_outs FOps s xs) (prefixes_from [] xs).
+Proof. exact mad_float_within_tau. Qed.
+Theorem C01_mad_binary64_error : forall p s xs M, mad_new FOps p = Ok s -> (p <= 140737488355328)%N ->
+  (1 <= M)%R -> (M <= bpow radix2 400)%R -> Forall (okin M) xs -> (INR (length xs) * u <= / 64)%R ->
+  Forall2 (fun o hh => finF o /\ (0 <= FR o)%R /\
+            (Rabs (FR o - madev (map FR (lastn (N.to_nat p) hh))) <= (12 * INR (length hh) + 10) * u * M + (5 * INR (length hh) + 1) * eta)%R)
+          (Wiring.mad_outs FOps s xs) (prefixes_from [] xs).
+Proof. exact mad_float_error. Qed.
+
 From Coq Require Import List Floats.
 From TA Require Import Generic FloatInst XQ Run2 Par.Hom Par.Var Par.Oracle.
 (* the T2 oracle (exact rational run, evaluated by the checks) is the image of the exact real run these
